@@ -1,0 +1,11 @@
+//go:build verif
+
+package callflag
+
+// Contracts for the verif build tag (comment-only; see /verif/DESIGN.md).
+
+//@ prop C16
+
+//@ func (CallFlag).Has
+//@ ensures[subset] result == (f & cf == cf)
+//@ ensures[bits] result == forall(i, 0, 8, (cf / (1 << i)) % 2 == 1 ==> (f / (1 << i)) % 2 == 1)
